@@ -174,8 +174,11 @@ pub fn lock_events_json(evs: Vec<verif::locks::LockEvent>, dedupe: bool) -> Vec<
     let mut out: Vec<Value> = Vec::new();
     let mut seen: std::collections::HashSet<String> = std::collections::HashSet::new();
     for e in evs {
-        if !(e.thread.starts_with("client") || e.thread.starts_with("proc") || e.thread.starts_with("policy") || e.thread.starts_with("par-")) {
-            continue; // the harness' own reads (len(), snapshots)
+        // free-running runs (dedupe): every thread counts -- the parallel clients ("par-*") and the cache's own unnamed worker
+        // threads ("tid-*"); scheduled runs: the actors only (the harness' own reads -- len(), snapshots -- are on "main")
+        let actor = e.thread.starts_with("client") || e.thread.starts_with("proc") || e.thread.starts_with("policy");
+        if !(actor || (dedupe && (e.thread.starts_with("par-") || e.thread.starts_with("tid-")))) {
+            continue;
         }
         if dedupe {
             ids.clear();
